@@ -99,3 +99,21 @@ def cluster(pairs, tol):
         else:
             reps.append(p)
     return reps
+
+
+def refine_crossing(spec1, spec2, a, b, iters=8):
+    """Newton refinement of an approximate crossing (a, b) of the two reference curves"""
+    for _ in range(iters):
+        p = spec_eval(spec1, np.array([a]))[0]
+        q = spec_eval(spec2, np.array([b]))[0]
+        d1 = spec_tangent(spec1, a)
+        d2 = spec_tangent(spec2, b)
+        det = d1.real * (-d2.imag) - (-d2.real) * d1.imag
+        if det == 0:
+            break
+        r = q - p
+        da = (r.real * (-d2.imag) - (-d2.real) * r.imag) / det
+        db = (d1.real * r.imag - d1.imag * r.real) / det
+        a = min(1.0, max(0.0, a + da))
+        b = min(1.0, max(0.0, b + db))
+    return a, b
